@@ -3,6 +3,6 @@ CONSTANTS
   Progs <- ProgsThorough
   Inits <- InitsThorough
   M = 8
-INVARIANTS TypeOK Bounded PopNonEmpty PopValue FalseLegit LenRange QuiescentExact Progress
+INVARIANTS TypeOK Bounded PopNonEmpty PopValue FalseLegit LenRange QuiescentExact TicketInv SlotExclusion Progress
 VIEW View
 CHECK_DEADLOCK FALSE
